@@ -327,13 +327,25 @@ func c16r4(p *Program, r *Report) {
 		}
 		nKnown := 0
 		miss := map[string]*pathState{}
+		// the variable that says whether the ring knows the address: second result of the lookup
+		okName := "ok"
+		ast.Inspect(fi.Decl.Body, func(x ast.Node) bool {
+			if as, isAs := x.(*ast.AssignStmt); isAs && len(as.Lhs) == 2 && len(as.Rhs) == 1 {
+				if c, isC := ast.Unparen(as.Rhs[0]).(*ast.CallExpr); isC && strings.HasPrefix(calleeName(fi.Pkg.TypesInfo, c), "(*ring).") {
+					if id, isId := as.Lhs[1].(*ast.Ident); isId && id.Name != "_" {
+						okName = id.Name
+					}
+				}
+			}
+			return true
+		})
 		for _, st := range tr.run(fi, 4) {
 			known, filtered, filterSeen := false, false, false
 			for k, v := range st.assume {
-				if k == "ok" && v {
+				if k == okName && v {
 					known = true
 				}
-				if strings.HasSuffix(k, ".filterHost(host)") {
+				if strings.Contains(k, ".filterHost(") && strings.HasSuffix(k, ")") {
 					filtered, filterSeen = v, true
 				}
 			}
